@@ -346,6 +346,58 @@ func (g *gen) message() msg {
 	}
 }
 
+// inSendActions lets the reply consumer write matching records from inside the
+// send function at chosen replies of the case's queries / subscriptions: at the
+// done that ends a (qsub's) query phase, at the N-th ok record, at the first
+// notification. The writes use keys of their own under the operation's prefix.
+func (g *gen) inSendActions(c *dbCase) {
+	t := g.t
+	type cand struct {
+		m msg
+		s *subState
+	}
+	var cands []cand
+	for _, m := range c.Msgs {
+		cm := classify(m.Raw)
+		if cm.Kind != kQuery && cm.Kind != kSub && cm.Kind != kQsub {
+			continue
+		}
+		s, ok := subFor(cm.OpID, cm.Query)
+		if !ok || backendByName(s.db) == nil || !strings.HasPrefix(s.prefix, g.ns) {
+			continue
+		}
+		cands = append(cands, cand{cm, s})
+	}
+	if len(cands) == 0 || rapid.IntRange(0, 9).Draw(t, "insend") >= 5 {
+		return
+	}
+	n := rapid.IntRange(1, 2).Draw(t, "ninsend")
+	for i := 0; i < n; i++ {
+		cd := rapid.SampledFrom(cands).Draw(t, "insendop")
+		a := inSend{Op: cd.m.OpID}
+		switch cd.m.Kind {
+		case kQsub:
+			a.Trigger = rapid.SampledFrom([]string{"done", "done", "done", "ok", "note"}).Draw(t, "trigger")
+		case kQuery:
+			a.Trigger = rapid.SampledFrom([]string{"done", "ok"}).Draw(t, "trigger")
+		default:
+			a.Trigger = "note"
+		}
+		if a.Trigger == "ok" {
+			a.N = rapid.IntRange(1, 2).Draw(t, "okn")
+		}
+		a.Kind = rapid.SampledFrom([]string{kCreate, kCreate, kUpdate, kDelete}).Draw(t, "wkind")
+		if a.Kind == kDelete {
+			a.Key = fmt.Sprintf("%s:%sd%d", cd.s.db, cd.s.prefix, i)
+			c.Prefill = append(c.Prefill, prefill{Key: a.Key, Form: "json", Object: `{"Name":"to be deleted inside send","N":1}`})
+		} else {
+			a.Key = fmt.Sprintf("%s:%sw%d", cd.s.db, cd.s.prefix, i)
+			a.Payload = []byte(fmt.Sprintf(`J{"Name":"written inside send","N":%d,"B":true}`, 5+i))
+		}
+		c.InSend = append(c.InSend, a)
+	}
+}
+
 var prefillObjects = []string{
 	`{"Name":"x","N":1,"B":true,"F":2.5,"Tags":["a"],"M":{"k":"v"}}`,
 	`{"Name":"typed","N":7}`,
@@ -390,6 +442,7 @@ func genCase(t *rapid.T, conc bool) *dbCase {
 	for len(c.Msgs) < n {
 		c.Msgs = append(c.Msgs, g.message())
 	}
+	g.inSendActions(c)
 	if conc && rapid.IntRange(0, 2).Draw(t, "bulk") == 0 {
 		// many records and a slow consumer: queries take long enough for cancels and writes to race them
 		c.Bulk = rapid.SampledFrom([]int{15, 40, 120}).Draw(t, "nbulk")
@@ -436,6 +489,9 @@ func recordCase(c *dbCase, classes map[string]int) {
 	for _, m := range c.Msgs {
 		fp.Write(m.Raw)
 		fp.WriteByte(0)
+	}
+	for _, a := range c.InSend {
+		fmt.Fprintf(&fp, "insend %s %s %d %s %s\x00", a.Op, a.Trigger, a.N, a.Kind, a.Key)
 	}
 	// the name space differs per case: strip it from the fingerprint
 	f := strings.ReplaceAll(fp.String(), c.NS, "NS/")
@@ -499,7 +555,7 @@ func FuzzHandle(f *testing.F) {
 		"1|get|c13hm:NS/r0", "2|query|query c13bb:NS/", "3|sub|query c13hm:NS/ where N > 0", "4|qsub|query c13bb:NS/r",
 		"5|create|c13hm:NS/n0|J{\"a\":1}", "6|update|c13bb:NS/r0|J{\"Name\":\"y\"}", "7|insert|c13hm:NS/r0|{\"N\":5}", "7|insert|c13hm:NS/r3|{\"Tags\":[\"x\"]}",
 		"7|insert|c13hm:NS/r1|{\"a\":1}", "8|delete|c13bb:NS/r0", "s|cancel", "9|cancel", "", "|", "||", "1|nope|x", "1|create|c13hm:NS/x", "1|create|c13hm:NS/x|J",
-		"1|create|c13hm:NS/x|\xff{}", "1|get|api:endpoints", "1|query|query c13hm:NS/ where (", "1|update|c13bb:NS/r2|C\xa1aa\x01", "|update|c13bb:NS/r0|J{}}", "u|update|c13hm:NS/r0|J{\"a\":1} x",
+		"1|create|c13hm:NS/x|\xff{}", "1|get|api:endpoints", "1|query|query c13hm:NS/ where (", "1|update|c13bb:NS/r2|C\xa1aa\x01", "|update|c13bb:NS/r0|J{}}", "u|update|c13hm:NS/r0|J{\"a\":1} x", "1|get|api:endpoints?a b", "|get|api:\x80? \xff",
 	} {
 		f.Add([]byte(s))
 	}
@@ -507,6 +563,13 @@ func FuzzHandle(f *testing.F) {
 		ns := newNS()
 		raw := []byte(strings.ReplaceAll(string(data), "NS/", ns))
 		m := classify(raw)
+		if bridgeRawQuery(m) {
+			if stats.Excl("c13.api_bridge_raw_query") {
+				// open finding C13-bridge-request-line: this input class kills the process
+				stats.Excluded("c13.api_bridge_raw_query")
+				return
+			}
+		}
 		if m.Kind != kMalformed && m.Kind != kCancel {
 			// keep the message inside the harness databases (or the read-only foreign ones)
 			db := ""
@@ -592,4 +655,64 @@ func TestRegInsertRacingQueryOnHashmap(t *testing.T) {
 		c.Msgs = append(c.Msgs, build(kQuery, "q3", "", "query c13hm:"+ns+"bulk0", nil), build(kCancel, "q1", "", "", nil))
 		runCase(t, c)
 	}
+}
+
+// TestRegQsubNoGapBetweenQueryAndSubscription: a matching record that is written
+// and acknowledged right when the query phase of a qsub ends (inside the send of
+// its done), during the query phase (inside the send of an ok record) or inside
+// the send of a notification must be announced (seeded change C13-3 subscribed
+// only after the query phase).
+func TestRegQsubNoGapBetweenQueryAndSubscription(t *testing.T) {
+	for _, db := range []string{"c13hm", "c13bb", "c13fs", "c13hs"} {
+		for _, trigger := range []string{"done", "ok", "note"} {
+			ns := newNS()
+			c := &dbCase{NS: ns}
+			for i := 0; i < 3; i++ {
+				c.Prefill = append(c.Prefill, prefill{Key: fmt.Sprintf("%s:%sr%d", db, ns, i), Form: "json", Object: `{"Name":"x","N":1}`})
+			}
+			c.Prefill = append(c.Prefill, prefill{Key: db + ":" + ns + "d0", Form: "json", Object: `{"Name":"to be deleted","N":1}`})
+			c.Msgs = []msg{
+				build(kSub, "other", "", "query "+db+":"+ns, nil),
+				build(kQsub, "qs", "", "query "+db+":"+ns, nil),
+				build(kCreate, "c1", db+":"+ns+"n1", "", []byte(`J{"a":1}`)),
+				build(kGet, "g1", db+":"+ns+"w0", "", nil),
+			}
+			c.InSend = []inSend{
+				{Op: "qs", Trigger: trigger, N: 2, Kind: kCreate, Key: db + ":" + ns + "w0", Payload: []byte(`J{"Name":"late","N":2}`)},
+				{Op: "qs", Trigger: trigger, N: 2, Kind: kDelete, Key: db + ":" + ns + "d0"},
+			}
+			runCase(t, c)
+		}
+	}
+}
+
+// bridgeRawQuery: a request that reads a record of the "api" bridge database
+// whose key carries a raw query ('?'): the input class of the open finding
+// C13-bridge-request-line (exclusion flag c13.api_bridge_raw_query).
+func bridgeRawQuery(m msg) bool {
+	switch m.Kind {
+	case kGet, kDelete, kInsert, kCreate, kUpdate:
+		db, rest := splitKey(m.Key)
+		return db == "api" && strings.Contains(rest, "?")
+	}
+	return false
+}
+
+// TestWitnessBridgeRequestLine (open finding; found by FuzzHandle in the thorough
+// tier): "N|get|api:<path>?<query with a space>" reaches api.callAPI, which copies
+// the raw query unescaped into httptest.NewRequest; that function panics on a
+// malformed request line, on the bare request goroutine: the process dies.
+// The witness fails (the test process dies) while the defect exists.
+func TestWitnessBridgeRequestLine(t *testing.T) {
+	ns := newNS()
+	c := &dbCase{NS: ns, Msgs: []msg{
+		build(kGet, "1", "api:endpoints?a b", "", nil),
+		build(kGet, "2", "api:auth/permissions? HTTP/9.9", "", nil),
+		build(kDelete, "3", "api:endpoints?x y", "", nil),
+		build(kGet, "4", "api:endpoints?fine=1", "", nil),
+		// the same function takes the HTTP method from the written record
+		build(kUpdate, "5", "api:endpoints", "", []byte(`J{"Method":"NOT A METHOD"}`)),
+		build(kUpdate, "6", "api:endpoints", "", []byte(`J{"Method":"GET"}`)),
+	}}
+	runCase(t, c)
 }
